@@ -21,7 +21,8 @@ Doc == JsonDeserialize(IOEnv.TRACE_FILE)
 Traces == Doc.traces
 \* residue types of all traces (ids are unique over the whole file)
 GraphOf(c) == [n |-> Len(c.nm), nm |-> c.nm, ed |-> { <<e[1], e[2]>> : e \in ToSet(c.ed) }]
-TContent == [t \in DOMAIN Doc.content |-> [rn |-> Doc.content[t].rn, g |-> GraphOf(Doc.content[t]), u |-> <<>>]]
+TContent == [t \in DOMAIN Doc.content |-> [rn |-> Doc.content[t].rn, g |-> GraphOf(Doc.content[t]), u |-> <<>>,
+                                           hasvs |-> Doc.content[t].hasvs, bonded |-> Doc.content[t].bonded]]
 TSystems == {<<>>}
 TBuild == {<<>>}
 ASSUME TLCSet(1, {}) /\ TLCSet(2, [t \in 1..Len(Traces) |-> 0])
@@ -72,6 +73,9 @@ TG == /\ Ev.op = "G" /\ Gen
       /\ TablesMatch
       /\ { g.hash : g \in GenRecs } = UNION { HashesOf(k) : k \in { k2 \in TrKeys : tmpl[k2].src # "generated" /\ tmpl'[k2].src = "generated" } }
       /\ \A g \in GenRecs : MonitorOK(g)
+      \* the virtual sites of every generated template are where the specification says (constructed - also when the minimiser had
+      \* nothing to do), judged by the monitor from the stored template: g.vs in {"none", "constructed", "initial"}
+      /\ \A g \in GenRecs : \A k \in TrKeys : g.hash \in HashesOf(k) => g.vs = tmpl'[k].vs
       /\ Keep
 \* the end of the run: every residue is backed, in its own molecule, by the version of the template the specification says
 \* (one template per key in the whole system: OneTemplatePerKey), and a computed size is the size of that template (SizeBelongs)
